@@ -65,6 +65,7 @@ struct Node {
     std::unique_ptr<interfaces::Mining> mining;
     size_t next_coin{0};
     CScript dest;
+    int slowdown{1};   // real sleeps are stretched on a loaded machine
 
     Node()
     {
@@ -75,6 +76,14 @@ struct Node {
         dest = P2WSH_OP_TRUE;
         // mature some coinbases so that cases can pay fees
         for (int i = 0; i < 40; ++i) mine();
+        // how late does a thread wake up from a 10 ms sleep on this machine right now?
+        int worst = 0;
+        for (int i = 0; i < 8; ++i) {
+            auto t0 = std::chrono::steady_clock::now();
+            std::this_thread::sleep_for(std::chrono::milliseconds(10));
+            worst = std::max<int>(worst, (int)std::chrono::duration_cast<std::chrono::milliseconds>(std::chrono::steady_clock::now() - t0).count());
+        }
+        slowdown = std::min(4, std::max(1, worst / 15));
     }
     void mine()
     {
@@ -113,6 +122,8 @@ struct Node {
         if (!inf) wo.timeout = MillisecondsDouble{(double)timeout_ms};
         if (w0[2] != "max") wo.fee_threshold = vd::ll(w0[2]);
 
+        // earlier cases may have moved the mock clock: start from a tip that is not old (the 20-minute rule)
+        if (TicksSinceEpoch<std::chrono::milliseconds>(NodeClock::now()) - tip_time_ms() > 0) mine();
         node::BlockCreateOptions co;
         co.coinbase_output_script = dest;
         std::unique_ptr<interfaces::BlockTemplate> tmpl = mining->createNewBlock(co, /*cooldown=*/false);
@@ -124,9 +135,12 @@ struct Node {
 
         std::promise<std::unique_ptr<interfaces::BlockTemplate>> prom;
         auto fut = prom.get_future();
-        std::thread waiter([&]() { prom.set_value(tmpl->waitNext(wo)); });
-        auto real_sleep = [](int ms) { std::this_thread::sleep_for(std::chrono::milliseconds(ms)); };
-        real_sleep(120);   // let the waiter reach wait_until
+        std::atomic<bool> started{false};
+        std::thread waiter([&]() { started.store(true); prom.set_value(tmpl->waitNext(wo)); });
+        const int k = slowdown;
+        auto real_sleep = [k](int ms) { std::this_thread::sleep_for(std::chrono::milliseconds(ms * k)); };
+        while (!started.load()) std::this_thread::sleep_for(std::chrono::milliseconds(1));
+        real_sleep(150);   // let the waiter reach wait_until
 
         bool interrupted = false, race = false;
         int blocks = 0;
@@ -179,7 +193,12 @@ struct Node {
 
 std::string guarded(Node& n, const std::string& line)
 {
-    try { return n.run(line); } catch (const std::exception& e) { return std::string("EXC ") + e.what(); }
+    try {
+        std::string r = n.run(line);
+        // a waiter thread that was scheduled too late for the scripted events (loaded machine) hangs: try again
+        for (int i = 0; i < 2 && r.rfind("HANG", 0) == 0; ++i) { n.slowdown = std::min(6, n.slowdown + 1); r = n.run(line); }
+        return r;
+    } catch (const std::exception& e) { return std::string("EXC ") + e.what(); }
 }
 
 void cleanup_dir()
